@@ -61,7 +61,7 @@ type mcRun struct {
 }
 
 var safetyInvs = []string{"TypeOK", "HandOff", "DoneAtMostOnce", "RejectDoneAtMostOnce", "NoEarlyCallback",
-	"HandlersNeedHandshake", "NegotiatedMin", "RefusedNeverConnects", "FIFO", "FIFOPrefix", "QueuedBeforeDisconnectSignalled"}
+	"HandlersNeedHandshake", "NegotiatedMin", "RefusedNeverConnects", "BadTrafficEndsReading", "FIFO", "FIFOPrefix", "QueuedBeforeDisconnectSignalled"}
 
 func tierFor(ctx *vrun.Ctx) tier {
 	if ctx.Thorough {
@@ -72,7 +72,7 @@ func tierFor(ctx *vrun.Ctx) tier {
 			{name: "repaired", scenarios: "ScenariosLiveQuick", fix: true, props: []string{"TerminationStrict"}, timeout: 15 * time.Minute},
 		}}
 	}
-	return tier{simScenarios: 120, batch: 40, drivers: 4, mc: []mcRun{
+	return tier{simScenarios: 100, batch: 40, drivers: 4, mc: []mcRun{
 		{name: "safety", scenarios: "ScenariosSafetyQuick", timeout: 6 * time.Minute},
 		{name: "liveness", scenarios: "ScenariosLiveQuick", props: []string{"Termination"}, timeout: 6 * time.Minute},
 	}}
@@ -201,6 +201,8 @@ func scenarioFromState(st tla.State) (Scenario, error) {
 	sc.Dir = v.F("dir").Str()
 	sc.LPV = v.F("lpv").Int()
 	sc.RClose = v.F("rclose").Bool()
+	sc.Net = v.F("net").Str()
+	sc.Loop = v.F("loop").Bool()
 	for _, m := range v.F("script").Seq() {
 		sc.Script = append(sc.Script, RMsg{K: m.F("k").Str(), PV: m.F("pv").Int(), Self: m.F("self").Bool()})
 	}
@@ -928,7 +930,7 @@ func negativeControls(ctx *vrun.Ctx, traces []*Trace, verdicts []*verdict) error
 // RunC18 is the check.
 func RunC18(ctx *vrun.Ctx) error {
 	t := tierFor(ctx)
-	ctx.Ev.Coverage.Rule = "scenarios = remote script (<= 4 messages after an optional valid handshake prefix, over version{208,209,60000,60001,70001,70002,70015,70016,70017,self}, verack, sendaddrv2, unknown, ping, getaddr, malformed, wrong-magic) x direction x local version x remote close x 2 senders (<=3 messages) x inventory x steering of the schedule (sender start, disconnect point, held writes, held reader), sampled by TLC -simulate from PeerScenarios.tla plus its enumerated core list; each is run against a real peer.Peer (race build) and the recorded observable events are validated against Peer.tla by TLC (TracePeer.tla). distinct = distinct scenario shape + outcome class"
+	ctx.Ev.Coverage.Rule = "scenarios = remote script (<= 4 messages after an optional valid handshake prefix, over version{208,209,60000,60001,70001,70002,70015,70016,70017,self}, verack, sendaddrv2, unknown, ping, getaddr, malformed, wrong-magic) x direction x local version x chain parameters {main, testnet3, nil, regtest, simnet} x remote address {127.0.0.1, routable} x remote close x 2 senders (<=3 messages) x inventory x steering of the schedule (sender start, disconnect point, held writes, held reader), sampled by TLC -simulate from PeerScenarios.tla plus its enumerated core list; each is run against a real peer.Peer (race build) and the recorded observable events are validated against Peer.tla by TLC (TracePeer.tla). distinct = distinct scenario shape + outcome class"
 	ctx.Assume("v1 transport only (UsingV2Conn=false); BIP324 is property C19")
 	ctx.Assume("wall-clock timers of the peer (negotiate 30s, idle 5min, stall 15s tick, ping 2min) never fire in the recorded runs; they are model-checked as nondeterministic steps only")
 	ctx.Assume("handshake listeners (OnVersion, OnVerAck, OnSendAddrV2) and the raw OnRead/OnWrite observers are not 'protocol messages delivered to the application'")
